@@ -41,6 +41,12 @@ PROPS["C07"]["modules"] += ["IclModel.Props.C07Build"]
 PROPS["C06"]["modules"] += ["IclModel.Props.C07Build"]
 PROPS["C09"]["modules"] += ["IclModel.Props.C07Build"]
 PROPS["C08"]["modules"] += ["IclModel.Props.C01Walk"]
+# Writer.writeLine translated from writer.go = the framing / per-encoding body of the model
+for _p in ("C01", "C02", "C08", "C09"):
+    PROPS[_p]["modules"] += ["IclModel.Props.C02WriteLine"]
+# Bundle.Validate translated from bundle.go = the container check of reader and builds
+for _p in ("C09", "C04", "C06"):
+    PROPS[_p]["modules"] += ["IclModel.Props.C09Validate"]
 # Reader.parseLine and its handlers translated from reader.go = the step of the reader model
 for _p in ("C04", "C18", "C03", "C05"):
     PROPS[_p]["modules"] += ["IclModel.Props.C04Reader"]
